@@ -22,6 +22,17 @@ def generate(rng, tier):
         preds = [('dot_value', [a, b, d1]), ('dot_value', [b, a, d2]), ('scalar_close', [d1, d2, a, b, ['#', 2]]),
                  ('dot_self', [a, aa]), ('orth_iff', [d1, o1]), ('orth_iff', [d2, o2])]
         cases.append(Case(P, preds, 'pair:' + rel))
+    # orthogonality threshold hit exactly: parallel / opposite pairs whose |a||b| is 1e-10 -2..+2 ulps
+    for i in range(40 if tier == 'quick' else 400):
+        r = rng.fork(10**6 + i)
+        P = Prog()
+        ang = canon_angle(P, r, False)
+        m1 = r.choice([1.0, 2.0, 0.5, 4.0])
+        m2 = fb.nxt(1e-10 / m1, r.choice([-2, -1, 0, 0, 1, 2]))
+        a = P.add('GNewAngle', P.f(m1), ang)
+        b = P.add('GNewAngle', P.f(m2), ang if r.chance(0.5) else P.add('ANeg', ang))
+        d = P.add('GDot', a, b); o = P.add('GIsOrth', a, b)
+        cases.append(Case(P, [('dot_value', [a, b, d]), ('orth_iff', [d, o])], 'orth-threshold'))
     return cases
 
 LEVEL_TEXT = ('Kernel-checked theorems for every libm: the dot product is fabs(value) at blade 0 when value >= 0 and blade 2 when value < 0, remainder exactly 0, where value = fmul(fmul |a| |b|) cosF(grade_angle(b.angle - a.angle)); '
